@@ -43,24 +43,17 @@ def run(chk):
     core.diff_streams(chk, "guards", dreqs, dreal, core.run_driver(dreqs))
     # ---- oracle -------------------------------------------------------------------------------
     n = 400 if quick else 8000
-    ts, srcs = [], []
+    srcs, plans = [], []
     for i in range(n):
         g = tg.TmplGen(rng.fork(("t", i)), max_depth=3)
         t = g.template()
-        ts.append(t)
-        srcs.append(tg.Printer().template(t))
-    groups = render.compile_templates([[["p", s]] for s in srcs])
-    reqs, meta = [], []
-    for i, (t, g) in enumerate(zip(ts, groups)):
-        if "panic" in g or not isinstance(g.get("gen_groups"), str):
-            chk.violation("input", "compiler failed on generated template", template=srcs[i], answer=json.dumps(g)[:300])
-            continue
+        src = tg.Printer().template(t)
         r = rng.fork(("h", i))
         D0 = render.DATA_POOL[i % len(render.DATA_POOL)]
         hist = [D0]
         steps = [{"create": D0}]
-        for s in range(1 + r.below(3)):
-            D1 = up.mutate_data(r, hist[-1], focus=[k for k in D0 if k in srcs[i]])
+        for s_ in range(1 + r.below(3)):
+            D1 = up.mutate_data(r, hist[-1], focus=[k for k in D0 if k in src])
             u = up.diff_tree(hist[-1], D1)
             mode = r.below(3)
             if mode == 1:
@@ -69,6 +62,67 @@ def run(chk):
                 u = True
             steps.append({"update": D1, "U": up.tree_to_req(u)})
             hist.append(D1)
+        srcs.append(src)
+        plans.append((hist, steps))
+    # directed list / operand scenarios: every list shape x key x body x transition (exact, coarsened and `true` trees)
+    for src, trans in directed_scenarios():
+        for (D0, D1) in trans:
+            u = up.diff_tree(D0, D1)
+            for variant in (u, True, up.coarsen(rng.fork(("co", len(srcs))), u)):
+                srcs.append(src)
+                plans.append(([D0, D1], [{"create": D0}, {"update": D1, "U": up.tree_to_req(variant)}]))
+    run_histories(chk, srcs, plans)
+
+
+def directed_scenarios():
+    """[(template, [(D0, D1)])]: wx:for over arrays / objects / strings / conditionals / logic operands, with and without keys, bodies
+    reading item, index, members; template data built with logic operators; both operands changing at once"""
+    out = []
+    arr = [{"k": "x", "p": 1}, {"k": "y", "p": 2}, {"k": "z", "p": 3}]
+    arr_t = [
+        [{"k": "x", "p": 1}, {"k": "y", "p": 9}, {"k": "z", "p": 3}],            # one member
+        [{"k": "y", "p": 2}, {"k": "x", "p": 1}, {"k": "z", "p": 3}],            # swap
+        [{"k": "n", "p": 0}, {"k": "x", "p": 1}, {"k": "y", "p": 2}, {"k": "z", "p": 3}],   # insert front
+        [{"k": "x", "p": 1}, {"k": "z", "p": 3}],                                # delete middle
+        [{"k": "x", "p": 1}, {"k": "x", "p": 2}, {"k": "z", "p": 3}],            # duplicate key
+        [{"k": "z", "p": 7}, {"k": "y", "p": 8}, {"k": "x", "p": 9}],            # reverse + members
+        [],
+    ]
+    obj = {"a": {"k": "x", "p": 1}, "b": {"k": "y", "p": 2}}
+    obj_t = [
+        {"b": {"k": "y", "p": 2}, "c": {"k": "x", "p": 1}},      # same size, other keys
+        {"a": {"k": "x", "p": 5}, "b": {"k": "y", "p": 2}},      # one member
+        {"b": {"k": "y", "p": 2}},                               # shrink to a later key
+        {"b": {"k": "y", "p": 2}, "a": {"k": "x", "p": 1}},      # key order
+        {"c": {"k": "q", "p": 1}, "a": {"k": "x", "p": 1}, "b": {"k": "y", "p": 2}},
+    ]
+    bodies = ["{{index}}", "{{item.p}}", "{{index}}:{{item.k}}-{{item.p}}", "<v id=\"{{index}}\" data-a=\"{{item.p}}\">{{item.k}}</v>"]
+    for key in (None, "k", "*this"):
+        for body in bodies:
+            ka = "" if key is None else ' wx:key="%s"' % key
+            out.append(('<view wx:for="{{l}}"%s>%s</view>' % (ka, body), [({"l": arr}, {"l": t}) for t in arr_t] +
+                        [({"l": obj}, {"l": t}) for t in obj_t] + [({"l": arr}, {"l": obj}), ({"l": "abc"}, {"l": "abd"}), ({"l": 2}, {"l": 3})]))
+    # lists and template data computed from several operands that change in the same update
+    both = [({"c": {"z": 1}, "l": [{"p": 1}], "d": None}, {"c": {"z": 2}, "l": [{"p": 2}], "d": None}),
+            ({"c": {"z": 1}, "l": [{"p": 1}], "d": None}, {"c": {"z": 1}, "l": [{"p": 2}], "d": None}),
+            ({"c": {"0": {"p": 1}}, "l": [{"p": 1}], "d": 0}, {"c": {"0": {"p": 1}, "z": 1}, "l": [{"p": 3}], "d": 0})]
+    for lst in ("c && l", "d || l", "c ? l : d", "d ?? l", "[l[0], c][0] ? l : l"):
+        out.append(('<view wx:for="{{ %s }}">{{item.p}}</view>' % lst, both))
+    tdata = [({"o": {"a": 1}, "q": {"k": 1, "n": "x"}}, {"o": {"a": 2}, "q": {"k": 2, "n": "x"}}),
+             ({"o": {"a": 1}, "q": {"k": 1, "n": "x"}}, {"o": {"a": 1}, "q": {"k": 1, "n": "y"}})]
+    for dexpr in ("x: o && q", "x: o ? q : o", "x: q, y: o", "...q, k: o.a", "x: [o, q][1]", "x: {k: q.k, n: q.n}"):
+        out.append(('<template name="t">{{x.k}}{{x.n}}{{k}}{{n}}</template><template is="t" data="{{ %s }}"/>' % dexpr, tdata))
+    return out
+
+
+def run_histories(chk, srcs, plans):
+    groups = render.compile_templates([[["p", s]] for s in srcs])
+    reqs, meta = [], []
+    for i, g in enumerate(groups):
+        if "panic" in g or not isinstance(g.get("gen_groups"), str):
+            chk.violation("input", "compiler failed on generated template", template=srcs[i], answer=json.dumps(g)[:300])
+            continue
+        hist, steps = plans[i]
         reqs.append({"op": "render", "gen_groups": g["gen_groups"], "path": "p", "steps": steps})
         reqs.append({"op": "render", "gen_groups": g["gen_groups"], "path": "p", "steps": [{"create": hist[-1]}]})
         meta.append((i, hist, steps))
